@@ -565,6 +565,11 @@ def meta():
 def main():
     global PARSED
     payload = json.load(open(sys.argv[1]))
+    # the working directory must differ from the configured output path, otherwise a relative database
+    # name resolves to the same file with or without open_database's prefixing
+    cwd = os.path.join(SCRATCH, "cwd_elsewhere")
+    os.makedirs(cwd, exist_ok=True)
+    os.chdir(cwd)
     res = {}
     try:
         PARSED = [[D.parse_stmt(s) for s in step] for step in RUNTIME_STEPS]
